@@ -93,9 +93,15 @@ def run(ctx):
     ctx.rule("C19.R4", "ordered loading: one shared name table; injection into the last-loaded schema", floor=2)
     lo = p.func("_schema_py:load_schema_ordered")
     calls = [n for n in walk_local(lo.node) if isinstance(n, ast.Call) and isinstance(n.func, ast.Name) and n.func.id == "load_schema"]
-    ok = len(calls) == 1 and any(k.arg == "named_schemas" and norm(k.value) == "named_schemas" for k in calls[0].keywords) and any(isinstance(n, (ast.Assign, ast.AnnAssign)) and norm(n.target if isinstance(n, ast.AnnAssign) else n.targets[0]) == "named_schemas" and norm(n.value) == "{}" for n in walk_local(lo.node))
-    loops = [n for n in walk_local(lo.node) if isinstance(n, ast.For)]
-    ok = ok and len(loops) == 1 and not any(isinstance(n, (ast.Assign, ast.AnnAssign)) and "named_schemas" in norm(n.target if isinstance(n, ast.AnnAssign) else n.targets[0]) for n in ast.walk(loops[0]))
+    ok = False
+    if len(calls) == 1:
+        ns = [k.value for k in calls[0].keywords if k.arg == "named_schemas"] + list(calls[0].args[2:3])
+        if len(ns) == 1 and isinstance(ns[0], ast.Name):
+            tbl = ns[0].id
+            locfg = cfg_of(lo)
+            stores = [n for n in walk_local(lo.node) if isinstance(n, (ast.Assign, ast.AnnAssign)) and any(isinstance(x, ast.Name) and x.id == tbl for t in (n.targets if isinstance(n, ast.Assign) else [n.target]) for x in ast.walk(t))]
+            in_loop = {id(x) for l in walk_local(lo.node) if isinstance(l, (ast.For, ast.While)) for x in ast.walk(l)}
+            ok = len(stores) == 1 and norm(stores[0].value) == "{}" and id(stores[0]) not in in_loop and locfg.dominates(locfg.node_of(stores[0]), locfg.node_of(calls[0])) and id(calls[0]) in in_loop
     ctx.check("C19.R4", "all listed files are loaded against one name table created before the loop", ok, lo.where(), "load_schema_ordered: shared table", "dependencies listed earlier would be unknown to the later files")
     # role: L = the list collecting the loaded schemas; the result must be its last element
     what = "the last-listed schema is the result, earlier ones are injected into it"
